@@ -37,7 +37,7 @@ var denyPrefixes = []string{
 	"os", "syscall", "runtime", "reflect", "internal/reflectlite", "internal/poll", "internal/syscall", "net", "crypto",
 	"encoding/json", "encoding/gob", "os/exec", "os/signal", "io/ioutil", "io/fs", "log", "testing", "unsafe", "plugin",
 	"google.golang.org/grpc", "google.golang.org/protobuf/internal", "google.golang.org/protobuf/reflect", "github.com/spf13", "github.com/dgraph-io/ristretto",
-	"internal/abi", "internal/cpu", "internal/godebug", "internal/testlog", "sync", "context", "regexp", "fmt",
+	"flag", "internal/abi", "internal/cpu", "internal/godebug", "internal/testlog", "sync", "context", "regexp", "fmt",
 }
 
 func defaultDeny(path string) bool {
